@@ -75,3 +75,67 @@ package vm
 //@   loop 1:
 //@     invariant s.Script.Vars != nil && s.Script.Plain == old(s.Script.Plain) && s.Script.Template == old(s.Script.Template)
 //@   note JSON numbers reach this code as float64 (encoding/json); amounts above 2^53 are already rounded there and int(amount) truncates: finding F7, not decided by this contract
+
+// ---- the VM step (machine.go: tick, Execute; stack.go) — C22 C23 C27 -------------------------------------
+// Trusted about compiler output (and only this): every pop finds a value of the demanded type on the stack
+// (the typed stack discipline of script/compiler), OP_APUSH has its two operand bytes, OP_BUMP's index is in range.
+// It is encoded in the *assumed* contracts of pop / popValue below and in the `requires` of tick.
+
+//@ sumfold infl(st []machine.Value, a machine.AccountAddress, x machine.Asset) = (is(e, machine.Funding) && e.(machine.Funding).Asset == x) ? sumBy(e.(machine.Funding).Parts, a) : 0
+//@ sumfold vcred(ps []Posting, a string, x string) = (e.Destination == a && e.Asset == x) ? val(e.Amount) : 0
+//@ sumfold vdeb(ps []Posting, a string, x string) = (e.Source == a && e.Asset == x) ? val(e.Amount) : 0
+//@ define wfStack(st []machine.Value) bool = forall i int :: {st[i]} 0 <= i && i < len(st) ==> wfValue(st[i])
+//@ sumfold fsum(fs []machine.Funding, a machine.AccountAddress, x machine.Asset) = e.Asset == x ? sumBy(e.Parts, a) : 0
+//@ function netD(st []machine.Value, ps []Posting, a machine.AccountAddress, x machine.Asset) int = vcred(ps, a, x) - vdeb(ps, a, x) - infl(st, a, x)
+//@ ghost initBal arr[machine.AccountAddress]arr[machine.Asset]int
+//@ define J1(b map[machine.AccountAddress]map[machine.Asset]*machine.MonetaryInt, st []machine.Value, ps []Posting, ib arr[machine.AccountAddress]arr[machine.Asset]int) bool = forall a machine.AccountAddress, x machine.Asset :: {bal(b, a, x)} {netD(st, ps, a, x)} tracked(b, a, x) ==> bal(b, a, x) <= ib[a][x] + netD(st, ps, a, x)
+
+//@ assumed func pop(m *Machine) (r T)
+//@   modifies m
+//@   ensures unchangedExcept(m, old(m), Stack) && len(old(m.Stack)) > 0 && len(m.Stack) == len(old(m.Stack)) - 1 && sameArray(m.Stack, old(m.Stack))
+//@   ensures is(old(m.Stack)[len(old(m.Stack)) - 1], T) && r == old(m.Stack)[len(old(m.Stack)) - 1].(T)
+
+//@ assumed func (m *Machine) popValue() (r machine.Value)
+//@   modifies m
+//@   ensures unchangedExcept(m, old(m), Stack) && len(old(m.Stack)) > 0 && len(m.Stack) == len(old(m.Stack)) - 1 && sameArray(m.Stack, old(m.Stack))
+//@   ensures r == old(m.Stack)[len(old(m.Stack)) - 1] && r != nil
+
+//@ func (m *Machine) pushValue(v machine.Value)
+//@   property W01
+//@   modifies m
+//@   ensures unchangedExcept(m, old(m), Stack) && len(m.Stack) == len(old(m.Stack)) + 1 && m.Stack[len(old(m.Stack))] == v
+//@   ensures forall i int :: {m.Stack[i]} 0 <= i && i < len(old(m.Stack)) ==> m.Stack[i] == old(m.Stack)[i]
+//@   ensures forall a machine.AccountAddress, x machine.Asset :: {infl(m.Stack, a, x)} {infl(old(m.Stack), a, x)} infl(m.Stack, a, x) == infl(old(m.Stack), a, x) + ((is(v, machine.Funding) && v.(machine.Funding).Asset == x) ? sumBy(v.(machine.Funding).Parts, a) : 0)
+
+//@ func (m *Machine) getResource(addr machine.Address) (r *machine.Value, ok bool)
+//@   property W01
+//@   ensures ok == (addr < len(m.Resources))
+//@   ensures ok ==> r != nil && deref(r) == m.Resources[addr]
+
+//@ func (m *Machine) tick() (finished bool, err error)
+//@   property W01
+//@   requires m.P < len(m.Program.Instructions)
+//@   requires m.Program.Instructions[m.P] == program.OP_APUSH ==> m.P + 3 <= len(m.Program.Instructions)
+//@   requires m.Program.Instructions[m.P] == program.OP_BUMP ==> len(m.Stack) > 0 && is(m.Stack[len(m.Stack) - 1], *machine.MonetaryInt) && 0 <= val(m.Stack[len(m.Stack) - 1].(*machine.MonetaryInt)) && val(m.Stack[len(m.Stack) - 1].(*machine.MonetaryInt)) < len(m.Stack) - 1
+//@   requires wfBal(m.Balances) && wfStack(m.Stack) && m.TxMeta != nil && m.AccountsMeta != nil
+//@   requires forall i int :: {m.Resources[i]} 0 <= i && i < len(m.Resources) ==> wfValue(m.Resources[i]) && !is(m.Resources[i], machine.Funding)
+//@   modifies m
+//@   ensures err == nil ==> wfBal(m.Balances) && wfStack(m.Stack) && m.TxMeta != nil && m.AccountsMeta != nil
+//@   ensures err == nil ==> m.P > old(m.P) && m.Program == old(m.Program) && m.Resources == old(m.Resources)
+//@   ensures err == nil && !finished ==> m.P < len(m.Program.Instructions)
+//@   loop 1:
+//@     invariant unchangedExcept(m, old(m), Stack) && wfStack(m.Stack) && len(portions) == val(n) && i <= val(n)
+//@     invariant forall j int :: {portions[j]} 0 <= j && j < i ==> true
+//@   loop 2:
+//@     invariant unchangedExcept(m, old(m), Stack) && wfStack(m.Stack) && 1 <= i && i <= n && len(fundings_rev) == n
+//@     invariant forall j int :: {fundings_rev[j]} 0 <= j && j < i ==> wfParts(fundings_rev[j].Parts) && fundings_rev[j].Asset == result.Asset
+//@     invariant len(result.Parts) == 0
+//@   loop 3:
+//@     invariant unchangedExcept(m, old(m), Stack) && wfStack(m.Stack) && 0 <= i && i <= n && len(fundings_rev) == n && wfParts(result.Parts)
+//@     invariant forall j int :: {fundings_rev[j]} 0 <= j && j < n ==> wfParts(fundings_rev[j].Parts) && fundings_rev[j].Asset == result.Asset
+//@   loop 4:
+//@     invariant unchangedExcept(m, old(m), Stack) && wfStack(m.Stack) && 0 - 1 <= i && i < len(parts)
+//@     invariant forall j int :: {parts[j]} 0 <= j && j < len(parts) ==> parts[j] != nil
+//@   loop 5:
+//@     index k
+//@     invariant unchangedExcept(m, old(m), Stack, Postings, Balances) && wfStack(m.Stack) && wfBal(m.Balances)
